@@ -10,7 +10,7 @@ from dsim.props import c01
 
 ID = 'C02'
 LEVEL = 'exploration'
-CLASSES = [('fault_free', 1)]
+CLASSES = [('fault_free', 7), ('with_rejections', 3)]
 RULE = c01.RULE.replace('in 1-3 interleaved pipelines',
                         'in 1-3 interleaved writer actors')
 ASSUMPTIONS = c01.ASSUMPTIONS + [
@@ -23,7 +23,28 @@ ASSUMPTIONS = c01.ASSUMPTIONS + [
 STATE_MEASURE = c01.STATE_MEASURE
 
 
+def may_class(op):
+    """True for argument variants the API does not promise to reject (their
+    acceptance proves nothing about conformance)."""
+    from dsim.props import c09
+    m = c09.Model('utf-8')
+
+    try:
+        return m.arg_class(op) == c09.MAY
+    except Exception:
+        return True
+
+
 def generate(rng, tier, cls):
+    if cls == 'with_rejections':
+        # the accepted calls of a history that also contains rejected ones
+        # (out of order / invalid arguments): the stream must still be the
+        # canonical serialisation of exactly the accepted calls
+        from dsim.props import c09
+        scn = c09.generate(rng, tier, 'calls')
+        scn['keep_rejected'] = True
+        return scn
+
     return c01.generate(rng, tier, cls)
 
 
@@ -33,11 +54,19 @@ def execute(scn, L):
 
     for a in scn.get('actors', ()):
         if a.get('kind') == 'writer':
-            a = pipe.effective_writer_spec(a)
+            if scn.get('keep_rejected'):
+                if pipe.effective_writer_spec(dict(a, ops=[])) is None:
+                    out.discarded = 'outside-domain'
+                    return out
 
-            if a is None:
-                out.discarded = 'outside-domain'
-                return out
+                a = dict(a, ops=[op for op in a.get('ops', ())
+                                 if isinstance(op, dict) and 'op' in op])
+            else:
+                a = pipe.effective_writer_spec(a)
+
+                if a is None:
+                    out.discarded = 'outside-domain'
+                    return out
 
             actors.append(a)
         # readers are irrelevant to C02; keeping them out keeps runs cheap
@@ -52,15 +81,27 @@ def execute(scn, L):
             continue
 
         m, acc = pipe.model_from_calls(a)
+        data = w.visible(a.spec['file'])
+
+        if any(c['outcome'] == 'raise' for c in a.calls):
+            out.probe('history_with_rejected_calls')
 
         if m is None:
+            # the writer accepted a call the reference model cannot follow
+            # (a may-reject argument, or a wrongly accepted call): no byte
+            # oracle, but the stream must still be grammatical and legally
+            # ordered
             out.probe('writer_unusable:' + acc)
+
+            if acc == 'writer-accepted-unpredicted' and \
+               not any(may_class(op) for op in a.ops):
+                pipe.check_conformance(out, 'writer', data)
+
             continue
 
         if len(acc) != len(a.ops):
             out.probe('writer_rejected_valid_call')
 
-        data = w.visible(a.spec['file'])
         pipe.check_bytes_against_model(out, 'writer', data, m, acc)
         pipe.check_conformance(out, 'writer', data)
 
